@@ -58,6 +58,10 @@ class Corr:
     # model returns a *set* of admissible results
     compare: Callable[[Any, Any, dict], bool] | None = None
     classify: Callable[[dict, Any], str] | None = None  # distribution bucket
+    # spec-level op: the "model" side is the property's own executable specification, written
+    # in the plug-in (no Lean definition behind it). Used for the glue around the modelled
+    # cores (whole pipeline runs); reported separately in the evidence.
+    spec: Callable[[dict], Any] | None = None
 
 
 @dataclass
@@ -351,7 +355,14 @@ def run_check(plugin, tier: str, seed: int, replay: str | None = None) -> int:
                 impl_outs.append(corr.impl(a))
             except Exception as e:  # noqa: BLE001
                 impl_outs.append({"err": "HARNESS:" + type(e).__name__ + ":" + str(e)[:200]})
-        if lean.driver_ok:
+        if corr.spec is not None:
+            model_outs = []
+            for a in cases:
+                try:
+                    model_outs.append(corr.spec(a))
+                except Exception as e:  # noqa: BLE001
+                    model_outs.append({"fail": "spec crashed: " + type(e).__name__})
+        elif lean.driver_ok:
             try:
                 model_outs = driver.run([{"op": corr.op, "args": a} for a in cases])
             except Exception as e:  # noqa: BLE001
@@ -381,6 +392,8 @@ def run_check(plugin, tier: str, seed: int, replay: str | None = None) -> int:
             if len(samples) < 12 and nt and sub.random() < 0.02:
                 samples.append({"op": corr.op, "args": a, "impl": cio, "model": cmo})
             if mo is None:
+                continue
+            if isinstance(mo, dict) and "unspecified" in mo:
                 continue
             if isinstance(mo, dict) and "fail" in mo:
                 disagreements.append({"op": corr.op, "args": a, "impl": cio, "model": mo, "why": "driver could not evaluate"})
@@ -473,6 +486,7 @@ def run_check(plugin, tier: str, seed: int, replay: str | None = None) -> int:
             "rule": getattr(plugin, "RULE", "corpus, then bounded-exhaustive, then seeded random cases per op; distinct = distinct canonical (op,args); non-trivial per op rule in the plug-in"),
             "samples": samples[:12],
             "per_op_cases": per_op,
+            "spec_level_ops": [c.op for c in plugin.CORRS if c.spec is not None],
             "distribution": dist,
             "disagreements_checked": len(disagreements),
             "known_findings_replayed": [f["id"] for f in my_findings],
